@@ -41,34 +41,35 @@ const (
 	fForIn         // for(n in m){B}
 	fTryCatch      // try{B}catch(n){B2}
 	fTryCatchNoBinding
-	fFuncExprNamed      // (function n(){B});
-	fFuncExprParam      // (function(n){B});
-	fArrowParen         // ((n)=>{B});
-	fArrowSingle        // (n=>m);
-	fAsyncArrow         // (async n=>{B});
-	fParamDefault       // (function(n, p=n){B});
-	fDefaultOuter       // (function(p=n){B});
-	fLetObj             // let {n}=m;
-	fLetArr             // let [n]=m;
-	fSwitchLet          // switch(m){case 0:let n;B}
-	fParenList          // (n, m);
-	fParenAssign        // (n = m);
-	fParenObj           // ({n});
-	fLabel              // l: n;
-	fClassExprNamed     // (class n{f(){B}});
-	fObjMethod          // ({f(n){B}});
-	fIfBlock            // if(n){B}else{B2}
-	fObjMethod0         // ({f(){B}});
-	fUseArr             // [n];
-	fUseObjKV           // ({k:n});
-	fArrowBare          // q=n=>m;   (no parentheses anywhere: the identifier is first read as a use)
-	fAsyncArrowBare     // q=async n=>{B};
-	fDefaultOuterRest   // (function(p=n,...r){B});
-	fStaticBlock        // (class{static{B}});   a var scope of its own
-	fArrowComputedKey   // (({[[n]]:p})=>{B});   the key is an expression (here an array literal), not a binding
-	fObjMethodDefault   // ({f(p=n){B}});
-	fClassMethodDefault // (class{f(p=n){B}});
-	fAsyncArrowParen    // (async(n)=>{B});
+	fFuncExprNamed       // (function n(){B});
+	fFuncExprParam       // (function(n){B});
+	fArrowParen          // ((n)=>{B});
+	fArrowSingle         // (n=>m);
+	fAsyncArrow          // (async n=>{B});
+	fParamDefault        // (function(n, p=n){B});
+	fDefaultOuter        // (function(p=n){B});
+	fLetObj              // let {n}=m;
+	fLetArr              // let [n]=m;
+	fSwitchLet           // switch(m){case 0:let n;B}
+	fParenList           // (n, m);
+	fParenAssign         // (n = m);
+	fParenObj            // ({n});
+	fLabel               // l: n;
+	fClassExprNamed      // (class n{f(){B}});
+	fObjMethod           // ({f(n){B}});
+	fIfBlock             // if(n){B}else{B2}
+	fObjMethod0          // ({f(){B}});
+	fUseArr              // [n];
+	fUseObjKV            // ({k:n});
+	fArrowBare           // q=n=>m;   (no parentheses anywhere: the identifier is first read as a use)
+	fAsyncArrowBare      // q=async n=>{B};
+	fDefaultOuterRest    // (function(p=n,...r){B});
+	fStaticBlock         // (class{static{B}});   a var scope of its own
+	fArrowComputedKey    // (({[[n]]:p})=>{B});   the key is an expression (here an array literal), not a binding
+	fObjMethodDefault    // ({f(p=n){B}});
+	fClassMethodDefault  // (class{f(p=n){B}});
+	fAsyncArrowParen     // (async(n)=>{B});
+	fArrowPatternDefault // (([p]=[n])=>{B});   the default value of a pattern is an expression
 	numForms
 )
 
@@ -80,7 +81,7 @@ type sk struct {
 
 func (f skForm) bodies() int {
 	switch f {
-	case fFuncDecl, fFuncDeclParam, fClassMethod, fBlock, fForLet, fForVarOf, fForConstOf, fForIn, fTryCatchNoBinding, fFuncExprNamed, fFuncExprParam, fArrowParen, fAsyncArrow, fParamDefault, fDefaultOuter, fSwitchLet, fClassExprNamed, fObjMethod, fObjMethod0, fAsyncArrowBare, fDefaultOuterRest, fStaticBlock, fArrowComputedKey, fObjMethodDefault, fClassMethodDefault, fAsyncArrowParen:
+	case fFuncDecl, fFuncDeclParam, fClassMethod, fBlock, fForLet, fForVarOf, fForConstOf, fForIn, fTryCatchNoBinding, fFuncExprNamed, fFuncExprParam, fArrowParen, fAsyncArrow, fParamDefault, fDefaultOuter, fSwitchLet, fClassExprNamed, fObjMethod, fObjMethod0, fAsyncArrowBare, fDefaultOuterRest, fStaticBlock, fArrowComputedKey, fObjMethodDefault, fClassMethodDefault, fAsyncArrowParen, fArrowPatternDefault:
 		return 1
 	case fTryCatch, fIfBlock:
 		return 2
@@ -304,7 +305,7 @@ func (r *resolver) declare(list []*sk, s *rscope, funcLevel bool) {
 			r.declParam(fs, "p")
 			r.scopeOf[k] = []*rscope{fs}
 			r.declare(k.b1, fs, true)
-		case fDefaultOuter, fArrowComputedKey, fObjMethodDefault, fClassMethodDefault:
+		case fDefaultOuter, fArrowComputedKey, fObjMethodDefault, fClassMethodDefault, fArrowPatternDefault:
 			fs := newScope(scFunc, s)
 			r.declParam(fs, "p")
 			r.scopeOf[k] = []*rscope{fs}
@@ -566,6 +567,14 @@ func (w *renderer) list(list []*sk, s *rscope) {
 			w.raw("){")
 			w.list(k.b1, sc[0])
 			w.raw("}});")
+		case fArrowPatternDefault:
+			w.raw("(([")
+			w.id(sc[0], "p", false)
+			w.raw("]=[")
+			w.id(sc[0], k.n, true)
+			w.raw("])=>{")
+			w.list(k.b1, sc[0])
+			w.raw("});")
 		case fAsyncArrowParen:
 			w.raw("(async(")
 			w.id(sc[0], k.n, false)
@@ -713,7 +722,7 @@ func headBodyNames(list []*sk, out map[string]bool) {
 					out[x] = true
 				}
 			}
-		case fParamDefault, fDefaultOuter, fDefaultOuterRest, fArrowComputedKey, fObjMethodDefault, fClassMethodDefault:
+		case fParamDefault, fDefaultOuter, fDefaultOuterRest, fArrowComputedKey, fObjMethodDefault, fClassMethodDefault, fArrowPatternDefault:
 			if declaresDirectly(k.b1, k.n) {
 				out[k.n] = true
 			}
@@ -1153,7 +1162,7 @@ func c04Finish(c *engine.Ctx, cov map[string]interface{}) string {
 func init() {
 	register(&engine.Check{
 		ID: "C04", Level: "exploration",
-		Rule:        "all scope skeletons with ≤3 nodes over 40 statement forms (var/let/const/class/function declarations, uses, assignments, blocks, if/else blocks, for(let;;), for-of with var/const, for-in, try/catch with and without binding, named and anonymous function expressions, parenthesised/single/async arrows, methods, parameters with default values referring to another parameter or to an outer/body name, object and array destructuring, switch with a lexical declaration, parenthesised lists/assignments/object literals that look like arrow heads, labels, named class expressions, rest parameters after a default value, class static blocks, computed keys in arrow parameter patterns, default values in object and class methods, async arrows with parenthesised parameters) × names {a,b}, with 4 nodes over a 19-form core and with 5 (6) nodes over a 10-form core; every order of statements (use before declaration, hoisting through nested and sibling blocks, shadowing at every level). A textbook resolver labels every identifier occurrence with its binding (or global) and predicts lexical redeclarations; the parser's resolution is observed by giving every Var in every Scope.Declared a fresh name, printing with JS(), re-lexing the output with the reference lexer and comparing the identifier sequence (same binding ⇔ same fresh name, globals unchanged), re-parsing it, and comparing every Var.Uses with the number of times its name is printed",
+		Rule:        "all scope skeletons with ≤3 nodes over 41 statement forms (var/let/const/class/function declarations, uses, assignments, blocks, if/else blocks, for(let;;), for-of with var/const, for-in, try/catch with and without binding, named and anonymous function expressions, parenthesised/single/async arrows, methods, parameters with default values referring to another parameter or to an outer/body name, object and array destructuring, switch with a lexical declaration, parenthesised lists/assignments/object literals that look like arrow heads, labels, named class expressions, rest parameters after a default value, class static blocks, computed keys in arrow parameter patterns, default values in object and class methods, async arrows with parenthesised parameters, default values of patterns in arrow parameters) × names {a,b}, with 4 nodes over a 19-form core and with 5 (6) nodes over a 10-form core; every order of statements (use before declaration, hoisting through nested and sibling blocks, shadowing at every level). A textbook resolver labels every identifier occurrence with its binding (or global) and predicts lexical redeclarations; the parser's resolution is observed by giving every Var in every Scope.Declared a fresh name, printing with JS(), re-lexing the output with the reference lexer and comparing the identifier sequence (same binding ⇔ same fresh name, globals unchanged), re-parsing it, and comparing every Var.Uses with the number of times its name is printed",
 		Assumptions: []string{"programs on which 'var/function hoist to the enclosing function' and ES2022 disagree or that are invalid for reasons other than a lexical redeclaration (var vs let of one name, function vs var, duplicate parameters, block-level function declarations, Annex B catch-parameter cases) are counted as skipped_ambiguous", "a body-level var of the same name as a parameter denotes the parameter's binding"},
 		Setup:       c04Setup, Work: c04Work, Finish: c04Finish,
 	})
